@@ -207,6 +207,9 @@ def check(ctx):
     ok = len(cmps) == 1 and isinstance(cmps[0].ops[0], ast.Lt) and unparse(cmps[0]) == "dfs[i].divisions[-1] < dfs[i + 1].divisions[0]"
     ctx.ob("ALG.concat.strict-divisions", md, "frames are chained by divisions only if last division < next first division (the last division is inclusive)", ok, "" if ok else f"comparison is `{unparse(cmps[0]) if cmps else None}`: with equality the boundary value lives in two partitions while the divisions promise one")
     T.argpos(ctx, lambda p: p.split("/")[-1] in ("_merge.py", "_merge_asof.py", "_concat.py"), "c39", floor=10)
+    from ._claims import check_claims
+
+    check_claims(ctx)
 
 
 VARIANTS = [
